@@ -82,7 +82,13 @@ def gen_spec(r: apigen.Rng, idx: int, nlro=None):
     r.shuffle(methods)
     order = ["imp", "svc"]
     order.insert(r.randint(0, 2), "unimp")
-    return {"pkg": pkg, "files": files, "svc_deps": svc_deps, "order": order, "methods": methods}
+    # service config: an explicit http rule for Operations.GetOperation (used by the REST operations client),
+    # optionally with the Operations mixin declared
+    yaml_ = None
+    if r.maybe(0.35):
+        yaml_ = {"get_operation": r.pick(["/v9/{name=shelves/*/operations/*}", "/" + pkg.rsplit(".", 1)[1] + "/{name=**/operations/*}"]),
+                 "mixin": r.maybe(0.4)}
+    return {"pkg": pkg, "files": files, "svc_deps": svc_deps, "order": order, "methods": methods, "service_yaml": yaml_}
 
 
 def build_files(spec):
@@ -129,6 +135,24 @@ def build_files(spec):
             mp = svc.method(m["name"], rq, OP_OUT, http=http, body="*")
             mp.options.Extensions[operations_pb2.operation_info].SetInParent()
     return [out[role] for role in spec["order"]]
+
+
+def make_request(spec, files):
+    """(CodeGeneratorRequest, scratch dir or None)"""
+    params = "transport=grpc+rest,autogen-snippets=false"
+    tmp = None
+    y = spec.get("service_yaml")
+    if y:
+        import tempfile
+        tmp = tempfile.mkdtemp(prefix="gapicverif_c08yaml_", dir=genrun.SCRATCH)
+        path = os.path.join(tmp, "service.yaml")
+        with open(path, "w") as fh:
+            fh.write("type: google.api.Service\nconfig_version: 3\nname: lib.example.com\n")
+            if y.get("mixin"):
+                fh.write("apis:\n- name: google.longrunning.Operations\n")
+            fh.write("http:\n  rules:\n  - selector: google.longrunning.Operations.GetOperation\n    get: '%s'\n" % y["get_operation"])
+        params += ",service-yaml=" + path
+    return apigen.request(files, params), tmp
 
 
 def model_files(req):
@@ -317,7 +341,15 @@ def fail_key(spec, sig):
 
 def run_spec(ctx, r, spec, label, transports=("grpc", "grpc_asyncio", "rest")):
     files = build_files(spec)
-    req = apigen.request(files, "transport=grpc+rest,autogen-snippets=false")
+    req, tmp = make_request(spec, files)
+    try:
+        _run_spec(ctx, r, spec, label, files, req, transports)
+    finally:
+        if tmp:
+            genrun.cleanup(tmp)
+
+
+def _run_spec(ctx, r, spec, label, files, req, transports):
     mfiles = model_files(req)
     svc_path = f"{spec['pkg'].replace('.', '/')}/{spec['files']['svc']['stem']}.proto"
     svc_idx = [f["name"] for f in mfiles].index(svc_path)
@@ -325,6 +357,7 @@ def run_spec(ctx, r, spec, label, transports=("grpc", "grpc_asyncio", "rest")):
     for m in lros:
         ctx.count("response_case", m["response"]["case"]); ctx.count("metadata_case", m["metadata"]["case"])
     ctx.count("file_order", ",".join(spec["order"]))
+    ctx.count("service_yaml", json.dumps(spec.get("service_yaml"), sort_keys=True))
     # ---- model: generation outcome per method
     mops = []
     for m in spec["methods"]:
@@ -421,6 +454,12 @@ def run_spec(ctx, r, spec, label, transports=("grpc", "grpc_asyncio", "rest")):
                 sessions.append({"op": "grpc_session", "client": loc["async_client" if asy else "client"], "transport": loc[tr],
                                  "async": asy, "calls": calls, "trap_sleep": True})
         out = libhost.run(root, sessions, timeout=900)
+        for attempt in range(8):     # a shared harness file being edited by another builder at this moment: infrastructure, retry
+            if not any("child_error" in x and "/verif/harness/" in str(x["child_error"]) and "Error" in str(x["child_error"]) for x in out):
+                break
+            import time
+            time.sleep(8)
+            out = libhost.run(root, sessions, timeout=900)
         mrun = ask(ctx, [{"op": "c08.run", "rt": m["response"]["target"], "mt": m["metadata"]["target"], "ops": ops}
                                if m["kind"] == "lro" else {"op": "ping"} for (m, wm, ops, opname) in plans])
         for tr, sess in zip(transports, out):
@@ -503,9 +542,10 @@ def check_call(ctx, spec, codec, tr, m, ops, opname, res_, mo, stub_paths):
     got_before = decode_obs(codec, ok.get("metadata_before")) if "metadata_before" in ok else "n/a"
     if len(names) != expected_polls(ops):
         ctx.fail("poll-count", f"{tr} {m['name']}: {len(names)} GetOperation calls, history needs {expected_polls(ops)}", payload)
-    want_name = ("/" + spec["pkg"].rsplit(".", 1)[1] + "/" + opname) if tr == "rest" else opname
-    if any(n != want_name for n in names):
-        ctx.fail("poll-target", f"{tr} {m['name']}: polled {names}, operation is {want_name}", payload)
+    # REST: the URL prefix comes from the Operations http rule in force (api-core default or service config); the
+    # statement only says that the operation is polled, so only the operation's name is demanded
+    if any((n is None or not n.endswith("/" + opname)) if tr == "rest" else n != opname for n in names):
+        ctx.fail("poll-target", f"{tr} {m['name']}: polled {names}, operation is {opname}", payload)
     if tr != "rest" and names and GETOP not in stub_paths:
         ctx.fail("poll-channel", f"{tr} {m['name']}: GetOperation reached the server but no GetOperation stub was created on the transport's channel", payload)
     if term == "response" and not mismatch:
@@ -570,7 +610,7 @@ def run_outcome(ctx, spec, expect, label):
     """generation outcome only. expect: 'rejected' (statement: lacking a type name => rejected at generation time) |
     'generated' (inside the quantifier) | 'probe' (outside the quantifier: model vs implementation only)"""
     files = build_files(spec)
-    req = apigen.request(files, "transport=grpc+rest,autogen-snippets=false")
+    req, _tmp = make_request(spec, files)
     mfiles = model_files(req)
     svc_idx = [f["name"] for f in mfiles].index(f"{spec['pkg'].replace('.', '/')}/{spec['files']['svc']['stem']}.proto")
     mops = []
@@ -668,7 +708,7 @@ def run(ctx):
     run_excluded(ctx, r)
     run_rejections(ctx, r)
     t2_resolve(ctx, r)
-    for a in range(ctx.n(10, 160)):
+    for a in range(ctx.n(16, 170)):
         run_spec(ctx, r, gen_spec(r, a), f"api{a}")
 
 
